@@ -987,8 +987,11 @@ PROPS["C27"] = dict(
         V("C27.read_pdu_from_wire", "c27_read_pdu_from_wire.vrs",
           "read_pdu_from_wire (synchronous receiver): for ANY segmentation of the transport (each fill_buf returns an arbitrary non-empty "
           "prefix of what is left), the PDU returned is the first PDU of the logical stream read_buffer ++ remaining and exactly the rest of "
-          "that stream is left for the next receive; the loop terminates (returns a PDU or an error) — by induction over the loop",
-          expected_verified=5),
+          "that stream is left for the next receive; the loop terminates (returns a PDU or an error) — by induction over the loop; "
+          "ClientAssociation / ServerAssociation receive() (SyncAssociationSealed): the PDU returned is the first PDU of the logical stream "
+          "(bytes the ASSOCIATION kept from earlier receives ++ what the transport still holds) and the association keeps exactly the rest — "
+          "successive receives lose and duplicate nothing (a receive() that starts from a fresh buffer fails this postcondition)",
+          expected_verified=9),
         V("C27.read_pdu_head", "c25_read_pdu_head.vrs",
           "the callee's framing: every strict prefix of header + declared content reads as incomplete (shared with C25)", expected_verified=6),
         N("C27.association",
@@ -1020,5 +1023,5 @@ PROPS["C27"] = dict(
         "`let msg = loop { .. break pdu }` rewritten to a loop storing the value (Verus has no break-with-value)",
     ],
     uncovered=["read_pdu_from_wire_async (textually the same loop over tokio's read_buf; no async support in either verifier)",
-               "the association objects' receive() wrappers", "PDataReader::read (same loop shape inside the P-DATA reader)"],
+               "the asynchronous association objects' receive() wrappers (the synchronous ones are under contract over structs declared with only the fields receive() touches); the receive loops inside establish() (handshake), which hand their buffer over to the association", "PDataReader::read (same loop shape inside the P-DATA reader)"],
 )
